@@ -299,8 +299,9 @@ function bint.frombase(s, base)
     return
   end
   local step = getbasestep(base)
-  if #s < step then
-    -- string is small, use tonumber (faster)
+  if #s < step and s:find('^[+-]?%w+$') then
+    -- string is small, use tonumber (faster); tonumber alone would also accept surrounding white space,
+    -- which the chunked path below refuses
     return bint_frominteger(tonumber(s, base))
   end
   local sign, int = s:lower():match('^([+-]?)(%w+)$')
